@@ -81,4 +81,37 @@ def shapeKeyOf (base : Bytes) (mt : Bytes) (subs names : List Bytes) (cards : Li
   .shape base subs (some names) (some cards) (some lp) (some links) impl
     (if sources.any (· != mt) then some sources else none)
 
+/-! ### vocabulary of the framing theorem (`C14_frames`, `C14_skip`) -/
+
+/-- `_finish_typedesc` (protocol ≥ 2.0) for an arbitrary body: `uint32(len(desc)) + desc` -/
+def frame (b : Bytes) : Bytes := u32 b.length ++ b
+
+/-- `len(desc)` in `_finish_typedesc` for a node with header `h` and `npre` + `npost`
+    children (the positions written into the body do not change its length:
+    `Desc.body_length`) -/
+def bodySize (p : Proto) (h : Hdr) (npre npost : Nat) : Nat :=
+  (body p ⟨h, List.replicate npre 0, List.replicate npost 0⟩).length
+
+/-- the one guard of `_finish_typedesc` that `nodesOK` does not imply
+    (`_uint32_packer(len(desc))` raises `struct.error` otherwise): every body is
+    shorter than 2^32 bytes -/
+def BlocksFit (p : Proto) (d : Desc) : Prop :=
+  ∀ u ∈ subs d, bodySize p u.hdr u.pre.length u.post.length < 4294967296
+
+instance (p : Proto) (d : Desc) : Decidable (BlocksFit p d) := by unfold BlocksFit; infer_instance
+
+/-- the block boundaries the STRUCTURAL reader visits: `parseFlat` (which reads and
+    ignores the length prefix) block after block; each chunk = the bytes it consumed.
+    `frames` (Model/Desc.lean) is the reader that looks at the prefixes ONLY. -/
+def structWalk (m : Mode) (p : Proto) : Nat → Bytes → Option (List Bytes)
+  | _, [] => some []
+  | 0, _ :: _ => none
+  | fuel + 1, b :: bs =>
+    match parseFlat m p (b :: bs) with
+    | none => none
+    | some (_, r) =>
+      match structWalk m p fuel r with
+      | none => none
+      | some xs => some ((b :: bs).take ((b :: bs).length - r.length) :: xs)
+
 end EdbVerif.Desc
